@@ -407,3 +407,28 @@ R.loop(
     modifies=["self._lines", "items(self._content)"],
     fingerprint="line_content in content.split",
 )
+
+# ---------------------------------------------------------------- C11: indentation scopes
+M_IND = "clikit.api.io.indent"
+for n_out in (1, 2):
+    pairs = list(range(n_out))
+    distinct = " and ".join("outputs[%d] is not outputs[%d]" % (i, j) for i in pairs for j in pairs if i < j) or "True"
+    R.contract(
+        M_IND + ":Indent.__init__", variant="n%d" % n_out,
+        params={"outputs": "list[ref Output]", "indent": "int", "increment": "bool"},
+        requires=["len(outputs) == %d" % n_out, distinct],
+        ensures=["self._outputs is outputs", "len(self._original_indents) == %d" % n_out] + [
+            # the indentation in force before the scope is saved, the new one is installed on every output
+            "self._original_indents[%d] == old(outputs[%d]._indent) and outputs[%d]._indent == "
+            "(old(outputs[%d]._indent) + indent if increment else indent)" % (i, i, i, i) for i in pairs],
+        modifies=["self._outputs", "self._original_indents"] + ["outputs[%d]._indent" % i for i in pairs],
+    ).defaults = {"increment": False}
+    R.contract(
+        M_IND + ":Indent.__exit__", variant="n%d" % n_out,
+        # (the three arguments are ignored by the body: absent on a normal exit, objects on an exceptional one)
+        params={"exc_type": "none|ref object", "exc_val": "none|ref object", "exc_tb": "none"},
+        returns="none",   # falsy: an exception raised in the block propagates
+        requires=["len(self._outputs) == %d" % n_out, "len(self._original_indents) == %d" % n_out, distinct.replace("outputs", "self._outputs")],
+        ensures=["self._outputs[%d]._indent == self._original_indents[%d]" % (i, i) for i in pairs],
+        modifies=["self._outputs[%d]._indent" % i for i in pairs],
+    )
